@@ -128,5 +128,8 @@ def cases(rng, tier):
                 ops.append(["remove_ix", rng.randrange(8)])
             else:
                 q = rng.randint(bp, w)
-                ops.append(["remove", ((v >> (w - q)) << (w - q)) + rng.choice([0, 1 << (w - q)]) * rng.randrange(2), q])
+                rv = ((v >> (w - q)) << (w - q)) + rng.choice([0, 1 << (w - q)])
+                if rv > 2 ** w - 1:
+                    rv -= 2 << (w - q) if q else 0
+                ops.append(["remove", max(0, rv), q])
         yield ("c20_history", [ver, v, bp, ops], "history")
